@@ -122,7 +122,7 @@ var focusStickPool = []int{20, 44, 60, 100, 150}
 
 func (g *generator) setupFocus() []string {
 	q := queueSpec{comps: compsPool[g.rng.Intn(len(compsPool))], plat: g.rng.Intn(2), sizes: []int{0}}
-	if g.rng.Chance(1, 4) {
+	if g.rng.Chance(1, 3) {
 		q.sizes = []int{1, 4}
 	}
 	g.queues = append(g.queues, q)
@@ -155,7 +155,7 @@ func (g *generator) nextFocus(r *run, dt int, workerTask, taskDigest map[string]
 			focusInvPool[g.rng.Intn(len(focusInvPool))], prio, sel, g.rng.Intn(4)), true
 	case 1: // Synchronize of one of three workers: report completion of what it runs, else ask for work
 		sc := q.sizes[len(q.sizes)-1]
-		if g.rng.Chance(1, 6) {
+		if g.rng.Chance(1, 3) {
 			sc = q.sizes[0]
 		}
 		h := g.rng.Intn(3)
